@@ -5,7 +5,7 @@ import shutil
 import subprocess
 from .common import ZV, ZVDRV, ZVSPEC, sh, run_lines
 
-SCRATCH = "/var/tmp/zv-work"
+SCRATCH = os.environ.get("ZV_SCRATCH", "/var/tmp/zv-work")
 
 
 def scratch(name):
